@@ -137,6 +137,8 @@ func Exec(in ref.Instr, xs []tensor.Tensor) (tensor.Tensor, error) {
 	switch in.Op {
 	case "leaf":
 		return Leaf(ref.New(in.Shape, in.Data), in.Tracked)
+	case "full":
+		return tensor.Full(ref.CopyInts(in.Shape), in.F, Conf(in.Tracked))
 	case "slice":
 		return xs[0].Slice(Ranges(in.Index))
 	case "patch":
